@@ -244,7 +244,7 @@ class CallMixin:
             return FunV('builtin', qual=name)
         if name == 'utils':
             return ModuleV('mouette.utils')
-        if name == 'geom' and st.module and st.module.startswith('mouette.'):
+        if name in ('geom', 'geometry') and st.module and st.module.startswith('mouette.'):
             return ModuleV('mouette.geometry')       # `from .. import geometry as geom`
         # module-local, then unique global
         ci = self.index.resolve_class(name, st.module)
@@ -305,7 +305,42 @@ class CallMixin:
     # ------------------------------------------------------------------ calls
     def ev_Call(self, e, st):
         if any(isinstance(a, ast.Starred) for a in e.args) or any(k.arg is None for k in e.keywords):
-            raise OutOfSubset('*args / **kwargs call')
+            # f(a, *seq): supported when the starred argument is last, the callee is a repository function of known
+            # positional arity, and seq is a tuple / list; a list of symbolic length gets the obligation len(seq) == missing arity
+            if any(k.arg is None for k in e.keywords) or any(isinstance(a, ast.Starred) for a in e.args[:-1]):
+                raise OutOfSubset('*args / **kwargs call')
+            star = e.args[-1]
+            for fv, st1 in self.ev(e.func, st):
+                fv = self.lift(fv)
+                if not (isinstance(fv, FunV) and fv.kind == 'qual'):
+                    raise OutOfSubset('*args call of %r' % (fv,))
+                fi = self.index.fns[fv.qual]
+                if fi.node.args.vararg is not None:
+                    raise OutOfSubset('*args call of a variadic function')
+                k = len(fi.node.args.args) - (1 if fv.self is not None else 0) - (len(e.args) - 1)
+                for v, st2 in self.ev(star.value, st1):
+                    v = self.lift(v)
+                    if isinstance(v, SV) and v.t.kind in ('tuple', 'list'):
+                        v = unpack(st2, v.e, v.t)
+                    if isinstance(v, TupV):
+                        if len(v.items) != k:
+                            self.safety(st2, z3.BoolVal(False), 'star-arity', e)
+                            continue
+                        items = list(v.items)
+                    elif isinstance(v, Ref) and isinstance(st2.store[v.id], ListC):
+                        c = st2.store[v.id]
+                        self.safety(st2, c.n == k, 'star-arity', e)
+                        items = [unpack(st2, z3.Select(c.arr, i), c.t.args[0], parent=(v, z3.IntVal(i))) for i in range(k)]
+                    else:
+                        raise OutOfSubset('*args of %r' % (v,))
+                    names = []
+                    for i, it in enumerate(items):
+                        nm = '__star%d_%d' % (getattr(e, 'lineno', 0), i)
+                        st2.env[nm] = it
+                        names.append(ast.copy_location(ast.Name(id=nm, ctx=ast.Load()), e))
+                    e2 = ast.copy_location(ast.Call(func=e.func, args=list(e.args[:-1]) + names, keywords=e.keywords), e)
+                    yield from self.ev_Call(e2, st2)
+            return
         # spec-only / special forms evaluated on syntax
         if isinstance(e.func, ast.Name):
             n = e.func.id
@@ -739,8 +774,38 @@ class CallMixin:
         ps.env = dict(penv2)
         ps.spec = True
         ps.old = old
+        skip = None
+        res = None
         if spec.returns is not None:
-            res = fresh_value(post, spec.returns, 'res_%s' % fi.node.name)
+            # `result is <expr>` : the call returns an existing object (no fresh result)
+            for en in spec.ensures:
+                if isinstance(en, ast.Compare) and len(en.ops) == 1 and isinstance(en.ops[0], ast.Is) \
+                        and isinstance(en.left, ast.Name) and en.left.id == 'result':
+                    ps.store = post.store
+                    v = self.lift(self.ev1(en.comparators[0], ps))
+                    if isinstance(v, OptV) and isinstance(v.val, Ref):
+                        post.assume(z3.Not(v.none))
+                        v = v.val
+                    if isinstance(v, Ref):
+                        res, skip = v, en
+                    break
+            if res is None and spec.trusted:
+                # `result == <expr>` in a trusted contract: the result *is* that value (no fresh constant standing between the
+                # code's terms and the specification's: congruence over nonlinear monomials is expensive for the solver)
+                for en in spec.ensures:
+                    if isinstance(en, ast.Compare) and len(en.ops) == 1 and isinstance(en.ops[0], ast.Eq) \
+                            and isinstance(en.left, ast.Name) and en.left.id == 'result' \
+                            and not any(isinstance(n, ast.Name) and n.id == 'result' for n in ast.walk(en.comparators[0])):
+                        ps.store = post.store
+                        try:
+                            v = self.coerce_to(post, self.lift(self.ev1(en.comparators[0], ps)), spec.returns)
+                        except (OutOfSubset, SpecError, KeyError):
+                            break
+                        if isinstance(v, (SV, TupV, OptV)):
+                            res, skip = v, en
+                        break
+            if res is None:
+                res = fresh_value(post, spec.returns, 'res_%s' % fi.node.name)
             ps.store = post.store
         else:
             res = NONEV
@@ -748,6 +813,8 @@ class CallMixin:
         ps.env['result'] = res
         self.eval_lets(spec, ps)
         for en in spec.ensures:
+            if en is skip:
+                continue
             post.assume(self.spec_eval_bool(en, ps))
         post.assumed.extend(ps.assumed)
         yield res, post
@@ -862,7 +929,7 @@ PI = z3.Real('pi')
 INF = z3.Real('inf')
 
 BUILTIN_NAMES = {'len', 'range', 'min', 'max', 'abs', 'int', 'float', 'bool', 'tuple', 'list', 'set', 'dict', 'sorted',
-                 'enumerate', 'zip', 'sum', 'isinstance', 'implies', 'iff', 'ite', 'mapset', 'round', 'type', 'str',
+                 'enumerate', 'zip', 'sum', 'isinstance', 'implies', 'iff', 'ite', 'mapset', 'key_at', 'round', 'type', 'str',
                  'reversed', 'map', 'filter', 'deque', 'iter', 'next', 'hasattr', 'getattr', 'id', 'print', 'complex'}
 
 
